@@ -8,6 +8,7 @@ Line driver for the `Run` model (C15, stream `schedrun`). Ops (see `harness/cmd/
                                  value startMs; the beacon node reports genesis at genesisMs; nvals active validators
   gen ok|fail                    answer of the pending Genesis call (waitChainStart or newSlotTicker)
   syn ok|syncing|fail            answer of the pending NodeSyncing call
+  back <ms>                      the clock steps back (only while Run is in its loop); pending timers keep their deadlines
   adv <ms>                       the clock moves (a jittered backoff sleep must be covered completely, else `ambiguous`)
   hold                           the next validators call of the slot handler blocks until `rel`
   rel                            the blocked validators call returns
@@ -199,6 +200,14 @@ def step (d : DState) (line : String) : DState × String :=
       | .sSleep i syncing =>
         if n ≥ hiOf (!syncing) i then finish (ev (ev d (.adv (n * ms))) .wake) else (d, "ambiguous")
       | _ => finish (ev d (.adv (n * ms)))
+    | none => (d, "bad-op")
+  | ["back", a] =>
+    match a.toNat? with
+    | some n =>
+      if !d.live || n * ms > d.x.core.now then (d, "bad-op") else
+      match d.x.core.phase with
+      | .idle | .busy _ => finish (ev d (.back (n * ms)))
+      | _ => (d, "bad-op")
     | none => (d, "bad-op")
   | ["hold"] => if !d.live || d.hold || d.parked then (d, "bad-op") else finish { d with hold := true }
   | ["rel"] => if !d.live || !d.parked then (d, "bad-op") else finish { d with parked := false }
